@@ -338,26 +338,58 @@ func c03TusResume(c *Ctx, rule string) {
 		return
 	}
 	// the offset: result of ParseInt over the HEAD response's Upload-Offset header
-	isOffset := func(v ssa.Value) bool {
-		v = Unwrap(v)
-		defs := ReachingDefs(v)
-		if len(defs) == 0 {
-			defs = []ssa.Value{v}
+	isParsedOffset := func(d ssa.Value) bool {
+		cc, idx, ok := CallResult(d)
+		if !ok || idx != 0 || CalleeName(cc.Common()) != "strconv.ParseInt" {
+			return false
 		}
-		for _, d := range defs {
-			cc, idx, ok := CallResult(d)
-			if !ok || idx != 0 || CalleeName(cc.Common()) != "strconv.ParseInt" {
-				return false
-			}
-			hc, _, ok := CallResult(cc.Call.Args[0])
-			if !ok || CalleeName(hc.Common()) != "(net/http.Header).Get" {
-				return false
-			}
-			if s, ok := ConstString(hc.Call.Args[1]); !ok || s != "Upload-Offset" {
-				return false
-			}
+		hc, _, ok := CallResult(cc.Call.Args[0])
+		if !ok || CalleeName(hc.Common()) != "(net/http.Header).Get" {
+			return false
 		}
-		return true
+		s, ok := ConstString(hc.Call.Args[1])
+		return ok && s == "Upload-Offset"
+	}
+	// the value may travel through local cells (a captured variable, the result variable of a helper expanded in
+	// place); the zero stored on a path that returns an error is not an offset anybody uses
+	var isOffset func(v ssa.Value) bool
+	isOffset = func(v ssa.Value) bool {
+		seen := map[ssa.Value]bool{}
+		n, bad := 0, false
+		var walk func(v ssa.Value, d int)
+		walk = func(v ssa.Value, d int) {
+			v = Unwrap(v)
+			if seen[v] || d > 8 {
+				return
+			}
+			seen[v] = true
+			if k, ok := ConstInt(v); ok && k == 0 {
+				return
+			}
+			if isParsedOffset(v) {
+				n++
+				return
+			}
+			if ph, ok := v.(*ssa.Phi); ok {
+				for _, e := range ph.Edges {
+					walk(e, d+1)
+				}
+				return
+			}
+			if u, ok := v.(*ssa.UnOp); ok && u.Op == token.MUL {
+				if al, ok := u.X.(*ssa.Alloc); ok {
+					for _, r := range Referrers(al) {
+						if st, ok := r.(*ssa.Store); ok && st.Addr == ssa.Value(al) {
+							walk(st.Val, d+1)
+						}
+					}
+					return
+				}
+			}
+			bad = true
+		}
+		walk(v, 0)
+		return n > 0 && !bad
 	}
 	nBody := 0
 	for _, b := range fn.Blocks {
@@ -1995,7 +2027,15 @@ func blocklistLooksAtBaseName(c *Ctx, rule string) {
 	n := 0
 	isBase := func(v ssa.Value) bool {
 		bc, _, ok := CallResult(v)
-		return ok && CalleeName(bc.Common()) == "path/filepath.Base" && SameVar(bc.Call.Args[0], fn.Params[0])
+		if !ok || CalleeName(bc.Common()) != "path/filepath.Base" {
+			return false
+		}
+		for _, q := range fn.Params {
+			if short(q.Type().String()) == "string" && SameVar(bc.Call.Args[0], q) {
+				return true
+			}
+		}
+		return false
 	}
 	for _, ci := range AllCalls(WithAnon(fn), "strings.HasPrefix", "strings.EqualFold", "strings.Contains", "strings.HasSuffix") {
 		a := CallArgs(ci.Common())
